@@ -198,11 +198,26 @@ WideSpecs == << [kind |-> "struct", n |-> 33, p |-> "float64", tail |-> "string"
                 [kind |-> "struct", n |-> 18, p |-> "guid", tail |-> "int32"],
                 [kind |-> "struct", n |-> 70, p |-> "int32", tail |-> "uint8"],
                 [kind |-> "message", n |-> 40, p |-> "int64", tail |-> "string"],
-                [kind |-> "struct", n |-> 260, p |-> "bool", tail |-> "uint16"] >>
+                [kind |-> "struct", n |-> 260, p |-> "bool", tail |-> "uint16"],
+                \* ... and such records NESTED in a record that goes on after them (fixed sizes that do not fit a byte)
+                [kind |-> "neststruct", n |-> 33, p |-> "float64", tail |-> "string"],
+                [kind |-> "nestmsg", n |-> 18, p |-> "guid", tail |-> "int32"],
+                [kind |-> "nestarr", n |-> 70, p |-> "int32", tail |-> "uint8"],
+                [kind |-> "nestunion", n |-> 65, p |-> "uint64", tail |-> "uint16"] >>
 NWide == Len(WideSpecs)
 WideDefs(w) ==
   LET ws == WideSpecs[w] IN
-  IF ws.kind = "struct"
+  LET big == [name |-> "Big", kind |-> "struct", ro |-> FALSE, fields |-> [j \in 1..ws.n |-> Fld("f" \o ToString(j), P(ws.p))]] IN
+  IF ws.kind = "neststruct"
+  THEN << big, [name |-> "Root", kind |-> "struct", ro |-> FALSE, fields |-> << Fld("pre", P("bool")), Fld("big", R("Big")), Fld("tail", P(ws.tail)) >>] >>
+  ELSE IF ws.kind = "nestmsg"
+  THEN << big, [name |-> "Root", kind |-> "message", fields |-> << MFld(1, "big", R("Big"), FALSE), MFld(2, "tail", P(ws.tail), FALSE) >>] >>
+  ELSE IF ws.kind = "nestarr"
+  THEN << big, [name |-> "Root", kind |-> "struct", ro |-> FALSE, fields |-> << Fld("bigs", A(R("Big"))), Fld("tail", P(ws.tail)) >>] >>
+  ELSE IF ws.kind = "nestunion"
+  THEN << big, [name |-> "Root", kind |-> "union", branches |-> << [idx |-> 1, n |-> "Wrap"] >>],
+           [name |-> "Wrap", kind |-> "struct", ro |-> FALSE, inner |-> "Root", fields |-> << Fld("big", R("Big")), Fld("tail", P(ws.tail)) >>] >>
+  ELSE IF ws.kind = "struct"
   THEN << [name |-> "Root", kind |-> "struct", ro |-> FALSE,
            fields |-> [j \in 1..ws.n |-> Fld("f" \o ToString(j), P(ws.p))] \o << Fld("tail", P(ws.tail)) >>] >>
   ELSE << [name |-> "Root", kind |-> "message",
